@@ -26,6 +26,37 @@ assert cattrs.__file__.startswith(CATTRS_SRC), cattrs.__file__
 
 _MISSING = object()
 
+
+# ---- watchdog for calls into the implementation.  A changed cattrs can make a single structure / unstructure call take
+# exponential time (e.g. a hook that retries its whole input after any exception, met by a recursive class that runs
+# into RecursionError at every level): the check must finish and report, not hang.  The timeout is raised as a
+# BaseException (cattrs' own `except Exception` clauses do not swallow it) and the call counts as `raised`.
+import signal  # noqa: E402
+import threading  # noqa: E402
+
+CALL_TIMEOUT_S = float(os.environ.get("VERIF_CALL_TIMEOUT", "8"))
+
+
+class CallTimeout(BaseException):
+    pass
+
+
+def _on_alarm(signum, frame):
+    raise CallTimeout(f"call into cattrs exceeded {CALL_TIMEOUT_S} s")
+
+
+def guarded(f):
+    """run f() under the watchdog (main thread only; elsewhere unguarded)"""
+    if CALL_TIMEOUT_S <= 0 or threading.current_thread() is not threading.main_thread():
+        return f()
+    if signal.getsignal(signal.SIGALRM) is not _on_alarm:
+        signal.signal(signal.SIGALRM, _on_alarm)
+    signal.setitimer(signal.ITIMER_REAL, CALL_TIMEOUT_S)
+    try:
+        return f()
+    finally:
+        signal.setitimer(signal.ITIMER_REAL, 0)
+
 ALL_CFGS = [
     {"gen": g, "tuple": t, "detailed": d, "forbid": False}
     for g in (True, False)
@@ -172,7 +203,11 @@ class Session:
         if x is _MISSING:
             x = self.R.val(x_abs)
         try:
-            u = conv.unstructure(x, unstructure_as=self.R.ty(ty))
+            T = self.R.ty(ty)
+            u = guarded(lambda: conv.unstructure(x, unstructure_as=T))
+        except CallTimeout as e:
+            self.stats["call-timeout"] += 1
+            return ("err", e)
         except Exception as e:  # noqa: BLE001
             return ("err", e)
         try:
@@ -184,7 +219,11 @@ class Session:
         conv = conv or self.conv(cfg)
         p = self.R.val(payload_abs) if payload is _MISSING else payload
         try:
-            v = conv.structure(p, self.R.ty(ty))
+            T = self.R.ty(ty)
+            v = guarded(lambda: conv.structure(p, T))
+        except CallTimeout as e:
+            self.stats["call-timeout"] += 1
+            return ("err", e)
         except Exception as e:  # noqa: BLE001
             return ("err", e)
         try:
